@@ -68,6 +68,6 @@ class ExponentialToleranceInterval(BaseToleranceInterval):
         size: int,
     ) -> float:
         chi2_num = ot.ChiSquare(2).computeQuantile(coverage)[0]
-        chi2_den = ot.ChiSquare(2 * size - 2).computeQuantile(coverage)[0]
+        chi2_den = ot.ChiSquare(2 * size - 2).computeQuantile(alpha)[0]
         k_2 = size * chi2_num / chi2_den
         return self.__location + k_2 / self.__rate
